@@ -162,6 +162,65 @@ for p in sys.argv[1:]:
 '''
 
 
+def less_common_holdings_leg(ctx, tmp):
+    """Geometry variables found where the file's reader or the file itself left their names: bounds named in the encoding (a file
+    opened with decode_coords='all'), a face_edge table / edge coordinates of a mesh that names no edge dimension.  Each is part
+    of the inventory, and an edit of one of its values changes the hashed bytes."""
+    rng = ctx.rng
+    todo = []
+    for fam, kw in (('cf1d', dict(bounds=True)), ('cf2d', dict(bounds=True, invalid=False, holes='none'))):
+        d = gen.any_dataset(rng, fam, **kw)
+        path = os.path.join(tmp, f'lch_{fam}.nc')
+        with warnings.catch_warnings():
+            warnings.simplefilter('ignore')
+            d.ds.to_netcdf(path)
+            plain = xarray.open_dataset(path)
+            bnames = [plain[d.spec[k]].attrs.get('bounds') for k in ('lonname', 'latname')]
+            plain.close()
+            ds = emsarray.open_dataset(path, decode_coords='all')
+            ds.load()
+        todo.append((f"{d.spec['label']} opened with decode_coords='all'", ds, {d.spec['lonname'], d.spec['latname'], *bnames}, [b for b in bnames if b]))
+    dm = gen.ugrid(rng, w=3, h=2, supplied={'face_edge'}, phantom_edge_dim=True, invalid=False, fill='nan' if rng.random() < 0.5 else 'attr')
+    dsm = dm.ds.copy()
+    attrs = dict(dsm['Mesh2'].attrs)
+    attrs.pop('edge_dimension', None)
+    dsm['Mesh2'] = dsm['Mesh2'].copy()
+    dsm['Mesh2'].attrs = attrs
+    todo.append((dm.spec['label'] + ' without the edge_dimension attribute', dsm, expected_inventory(dm, dsm), ['Mesh2_face_edges']))
+    for label, ds, want, editable in todo:
+        case = {'dataset': label, 'leg': 'less common holdings'}
+        ctx.count('less_common_holdings')
+        ctx.case((label, 'holdings'), True)
+        with warnings.catch_warnings():
+            warnings.simplefilter('ignore')
+            names = attempt(lambda: {str(x) for x in ds.ems.get_all_geometry_names()})
+        if names[0] != 'ok':
+            ctx.count(f'less_common_holdings:refused:{names[1]}')
+            continue
+        if names[1] != {str(x) for x in want}:
+            ctx.report('property', f'geometry inventory {sorted(names[1])}, the geometry variables of this dataset are {sorted(map(str, want))}', case)
+            continue
+        base = attempt(lambda: stream_of(ds))
+        if base[0] != 'ok':
+            ctx.report('property', f'make_cache_key failed: {base[1]}', case)
+            continue
+        for vname in editable:
+            ds2 = ds.copy(deep=True)
+            vals = numpy.array(ds2[vname].values, copy=True)
+            flat = vals.reshape(-1)
+            k = next((i for i, x in enumerate(flat) if x == x), 0)
+            flat[k] = flat[k] + 1
+            ds2[vname] = (ds2[vname].dims, vals, dict(ds2[vname].attrs))
+            ds2[vname].encoding = dict(ds[vname].encoding)
+            for cv in ds.variables:
+                ds2[cv].encoding = dict(ds[cv].encoding)
+            if set(ds.coords) != set(ds2.coords):
+                ds2 = ds2.set_coords([c for c in ds.coords if c in ds2.variables])
+            got = attempt(lambda: stream_of(ds2))
+            if got[0] == 'ok' and got[1] == base[1]:
+                ctx.report('property', f'one value of the geometry variable {vname} was changed and the hashed bytes stayed the same', dict(case, edited=vname))
+
+
 def run(ctx):
     rng = ctx.rng
     quick = ctx.tier == 'quick'
@@ -606,5 +665,6 @@ def run(ctx):
                     bad = 'adding a data variable and a global attribute changes the key'
             if bad:
                 ctx.report('property', bad, case)
+        less_common_holdings_leg(ctx, tmp)
     finally:
         shutil.rmtree(tmp, ignore_errors=True)
